@@ -95,5 +95,15 @@ Theorem C03_opposite_sound (op : bop) (XL XR YL YR : list R) n (u v : list R) :
   bounds XL XR u -> bounds YL YR v -> countermonotone u v ->
   bounds (fst (opposite_op RN (opR op) XL XR YL YR)) (snd (opposite_op RN (opR op) XL XR YL YR)) (map2 (opR op) u v).
 Proof. intros. eapply opposite_bounds; eauto. Qed.
+(* independence: the outcomes are the n*n pairwise combinations u_i (op) v_j; order statistic by order statistic they lie between the n*n
+   sorted lower and upper corners computed by independent_op (before the result is condensed to n steps: C03_independent_block) *)
+From PUN Require Import Proofs.ComposeIndep.
+Theorem C03_independent_sound (op : bop) (XL XR YL YR u v : list R) n :
+  length XL = n -> length XR = n -> length YL = n -> length YR = n -> ple XL XR -> ple YL YR ->
+  (is_div op = true -> forall j, (j < n)%nat -> ~ has0 (nth j YL 0, nth j YR 0)) ->
+  bounds XL XR u -> bounds YL YR v ->
+  bounds (fst (independent_op RN (opR op) XL XR YL YR)) (snd (independent_op RN (opR op) XL XR YL YR)) (cart RN (opR op) u v).
+Proof. exact (independent_bounds op XL XR YL YR u v n). Qed.
 Print Assumptions C03_perfect_sound.
+Print Assumptions C03_independent_sound.
 Print Assumptions C03_opposite_sound.
